@@ -151,6 +151,10 @@ structure Sys where
       whose downlink-counter epoch has ended (join or 16-bit wrap), most recent first. -/
   emittedDn : List (Bytes × Nat) := []
   resetsDn : List Bytes := []
+  /-- …and the same for uplinks: (device, counter) of every inbox row written for a device copy with
+      strict counter checking, and the devices whose uplink-counter epoch has ended. -/
+  recordedUp : List (Bytes × Nat) := []
+  resetsUp : List Bytes := []
   deriving Repr, Inhabited
 
 def Sys.init (db : DB) : Sys := { db := db, fob := [], scheduled := [], threads := [], emitted := [], published := [], now := 1 }
@@ -340,7 +344,8 @@ def stepUplink (E : BlockFn) (sys : Sys) (s : UpSt) (fault : Bool) : Sys × List
         -- AdvanceFCntUp: the stored counter is checked again by the statement that moves it
         if fault then nextDevice sys s
         else match sys.db.advanceFCntUp d.eui fcnt d.keyWarning with
-          | some db => ({ sys with db := db, acceptedUp := noteCounter sys.acceptedUp d.eui fcnt },
+          | some db => ({ sys with db := db, acceptedUp := noteCounter sys.acceptedUp d.eui fcnt,
+                                    resetsUp := if fcnt + 1 < 65536 then sys.resetsUp else d.eui :: sys.resetsUp },
                         [.uplink { s with pc := 2, cur := { d with fcntUp := (fcnt + 1) % 65536 } }])
           | none =>
             -- the stored counter is already past this one (or the row is gone): fine for a relaxed device
@@ -354,7 +359,8 @@ def stepUplink (E : BlockFn) (sys : Sys) (s : UpSt) (fault : Bool) : Sys × List
     let s := { s with plain := plain }
     if fault then nextDevice sys s
     else match sys.db.addInbox ⟨d.eui, s.gw.ts, plain, s.gw.gwEUI, d.devAddr, s.gw.radio⟩ with
-      | some db => ({ sys with db := db }, [.uplink { s with pc := 3 }])
+      | some db => ({ sys with db := db, recordedUp := if d.relaxed then sys.recordedUp else sys.recordedUp ++ [(d.eui, fcnt)] },
+                    [.uplink { s with pc := 3 }])
       | none => nextDevice sys s
   | 3 =>
     -- GetApplicationByEUI
@@ -439,7 +445,7 @@ def stepJoin (E : BlockFn) (cfg : Config) (sys : Sys) (s : JoinSt) (fault : Bool
     if fault then (sys, [.done])
     else match sys.db.updateDevice d with
       | some db => ({ sys with db := db, acceptedUp := forget sys.acceptedUp d.eui, issuedDn := forget sys.issuedDn d.eui,
-                                resetsDn := d.eui :: sys.resetsDn },
+                                resetsDn := d.eui :: sys.resetsDn, resetsUp := d.eui :: sys.resetsUp },
                     [.join { s with pc := 5, dev := d }])
       | none => (sys, [.done])
   | 5 =>
@@ -461,7 +467,7 @@ def stepEncoder (E D : BlockFn) (sys : Sys) (pc : Nat) (p : PHY) (c : Ctx) (byte
         | none => (sys, [.done])
         | some db =>
           let sys := { sys with db := db, acceptedUp := forget sys.acceptedUp d.eui, issuedDn := forget sys.issuedDn d.eui,
-                                resetsDn := d.eui :: sys.resetsDn }
+                                resetsDn := d.eui :: sys.resetsDn, resetsUp := d.eui :: sys.resetsUp }
           match encodeJoinAccept E D d.appKey p with
           | .ok b => (sys, [.encoder 1 p { c with device := d } b])
           | _ => (sys, [.done])
